@@ -480,6 +480,8 @@ func (i *interpreter) hashBytes(kind string, bs []value, real bool) value {
 	}
 	if !seen {
 		i.path.hashApps = append(i.path.hashApps, app)
+		// idealisation: a digest / signature half is never all zero
+		i.solver.assert(tt.Not(tt.Eq(dig, tt.ConstU(256, 0))))
 	}
 	for k := 0; k < 32; k++ {
 		out[k] = mkval(tt.Extract(255-8*k, 248-8*k, dig), types.Uint8)
